@@ -374,7 +374,28 @@ def check_routes(ctx, rng, fe, variant=0):
             late = [C(b'late'), C(b'c%d' % conn)]
             n_declared = [len(prefixes)]
 
+            mid = [C(b'mid'), C(b'c%d' % conn)]
+
+            async def declare_mid():
+                # another task of the application declares a route while the start-up registrations are still under way (the
+                # first command is out, not all are answered): registered once all the same
+                for _ in range(4000):
+                    if len(fw.commands) >= 1:
+                        break
+                    await asyncio.sleep(0.00002 if fast else 0.0005)
+                if len(fw.commands) < len(prefixes):
+                    ctx.event('route-declared-during-start-up-registration')
+                if fe == 'v2':
+                    the_app.route(mid)(lambda n, a, reply, c: None)
+                else:
+                    the_app.route(mid)(lambda n, pr, a: None)
+                prefixes.append(mid)
+                n_declared[0] += 1
+            side = asyncio.ensure_future(declare_mid()) if (variant % 3 == 2 and len(prefixes) >= 2) else None
+
             async def after():
+                if side is not None:
+                    await side
                 if fast:
                     # everything within one millisecond: the next connection starts in the same clock reading
                     for _ in range(20000):
